@@ -53,7 +53,7 @@ PRIMS = {"only_child", "is_rule", "all_children", "to_pos", "to_keyword", "to_id
 REORDER = {"sort", "sort_by", "sort_by_key", "sort_unstable", "sort_unstable_by", "sort_unstable_by_key", "sort_by_cached_key", "reverse", "rev",
            "dedup", "dedup_by", "dedup_by_key", "swap", "swap_remove", "rotate_left", "rotate_right", "sorted", "sorted_by", "sorted_by_key",
            "shuffle", "unique", "unique_by"}
-ORDER_FREE = {"find", "rfind", "next_if", "len", "is_empty", "count", "any", "all", "contains", "max_by_key", "min_by_key", "max_by", "min_by",
+ORDER_FREE = {"fold", "try_fold", "reduce", "sum", "product", "find", "rfind", "next_if", "len", "is_empty", "count", "any", "all", "contains", "max_by_key", "min_by_key", "max_by", "min_by",
               "position", "contains_key", "get"}
 LEAF_READS = {"to_pos", "to_ident", "to_keyword", "as_str", "line_col", "as_span", "get_input", "to_string"}
 
@@ -331,6 +331,8 @@ class BuilderAI:
         self._first = {}
         self._loopdepth = 0
         self._quiet = 0         # > 0 while a helper is evaluated for one call site (nothing is recorded)
+        self._breaks = []
+        self.generic_fns = set()
         self._ctx = []          # the branch / loop / closure bodies under evaluation (a cursor must be consumed where it was made)
         self._cmeth = {}
         self.cursor_adts = set()
@@ -368,7 +370,8 @@ class BuilderAI:
             self.rule_tables = []
             self.ident_sites = []
             for p, f in self.fns.items():
-                self._analyse(f)
+                if p not in self.generic_fns:
+                    self._analyse(f)
             if not self.changed:
                 break
         else:
@@ -973,7 +976,9 @@ class BuilderAI:
             self._rets.append(v)
             return None
         if k in ("Break", "Continue"):
-            self._ev(n.get("e"), env)
+            v = self._ev(n.get("e"), env)
+            if k == "Break" and "e" in n and self._breaks:
+                self._breaks[-1].append(v)      # `break value`: the value of the enclosing loop
             return None
         if k == "If":
             return self._ev_if(n, env)
@@ -989,6 +994,9 @@ class BuilderAI:
                     m, leaf, fz = prov(v)
                     rec = self.fills.setdefault((adt, fld["name"]), {"m": {}, "leaf": E, "fuzzy": False, "fns": set(), "sites": 0, "ops": {}})
                     rec["m"], rec["leaf"], rec["fuzzy"] = m_join(rec["m"], m), rec["leaf"] | leaf, rec["fuzzy"] or fz
+                    if not m and any(x.get("k") == "Path" and "local" in x and (env.get(x["local"]) is None or not prov(env.get(x["local"]))[0])
+                                     for x in subnodes(fld["e"])):
+                        rec["unknown"] = True       # built from a local whose origin the interpreter did not follow
                     for op in ops_of(v):
                         rec["ops"].setdefault(op, "%s:%d" % (self.cur.file, n["s"][0]))
                     rec["fns"].add(self.cur.path)
@@ -1017,6 +1025,7 @@ class BuilderAI:
             self._widen(env)
             self._loopdepth += 1
             self._ctx.append(id(n))
+            self._breaks.append([])
             for _ in range(2):
                 e2 = dict(env)
                 self._ev(n["body"], e2)
@@ -1024,7 +1033,10 @@ class BuilderAI:
                 self._widen(env)
             self._loopdepth -= 1
             self._ctx.pop()
-            return None
+            out = None
+            for v in self._breaks.pop():
+                out = join(out, v)
+            return out
         if k in ("Assign", "AssignOp"):
             v = self._ev(n["r"], env)
             base = n["l"]
@@ -1285,6 +1297,8 @@ class BuilderAI:
                 # a helper that yields pairs / text is a user-defined primitive: evaluated for *this* call's arguments, so that a
                 # helper shared by many callers does not blur their rule sets
                 if callee not in self._stack and len(self._stack) < 4:
+                    if generic and not self._quiet:
+                        self.generic_fns.add(callee)    # recorded per call site; its own (joined) analysis would only blur it
                     r = self._eval_in_context(f, argvals, quiet=not generic or bool(self._quiet))
                     return r if pairish else mkval(*argvals)
                 if not pairish:
@@ -1348,7 +1362,11 @@ class BuilderAI:
             return V("pair", rv.m, fuzzy=rv.fuzzy)
         if rv is not None and rv.kind == "pair":
             return rv
-        return mkval(rv)
+        out = mkval(rv)
+        if out is not None and out.ops:
+            # an element of a re-ordered collection is not itself re-ordered (the collection built from the elements is)
+            out = V(out.kind, out.m, out.leaf, fuzzy=out.fuzzy) if (out.m or out.fuzzy) else None
+        return out
 
     def _closure_args(self, fn_arg, elem, acc=None):
         """argument values for a closure / fn item applied by an adaptor: pair-typed parameters receive the element"""
@@ -1356,6 +1374,9 @@ class BuilderAI:
             ps = fn_arg["params"]
             if len(ps) <= 1:
                 return [elem]
+            if not any(has_pair_ty(_ty(p)) for p in ps):
+                # fold(init, |acc, item| ..) over built values: the element is the last parameter, the accumulator comes first
+                return [join(acc, elem) if i < len(ps) - 1 else elem for i, p in enumerate(ps)]
             out = []
             for p in ps:
                 out.append(elem if has_pair_ty(_ty(p)) else acc)
@@ -1412,7 +1433,10 @@ class BuilderAI:
             return V("tuple", elems=[with_ops(base, frozenset({pid + ":0"})), with_ops(base, frozenset({pid + ":1"}))])
         ops = ops_of(rv)
         if m in ELEM or m in ORDER_FREE:
-            ops = E             # one element / a count: the order of the collection it came from no longer matters
+            # one element / a count / a folded value: the order of the collection it came from no longer matters
+            if out is not None and ops and (out.ops & ops):
+                out = V(out.kind, out.m, out.leaf, out.pos, out.elems, out.node, out.of, out.fuzzy, out.ops - ops)
+            ops = E
         rl = peel(recv)
         op = self._reorder_op(n, m, args, rv)
         if op:
